@@ -553,7 +553,7 @@ PROPS["C16"] = dict(
     streams=["C16"],
     compare=cmp_laws,
     classify=lambda case, model, why: dict(kind="failing-input", why=(case[1][:300] if "kind=law" in case[2] else why)),
-    gate_imports=EVAL_GATE + "From Coq Require Import Ascii.\nFrom Cel.Model Require Import Builtins.\nFrom Cel.Proofs Require Import TimestampProofs TimestampRoundtrip.\nOpen Scope Z_scope.",
+    gate_imports=EVAL_GATE + "From Coq Require Import Ascii.\nFrom Cel.Model Require Import Builtins.\nFrom Cel.Proofs Require Import TimestampProofs TimestampRoundtrip DayOfYear.\nOpen Scope Z_scope.",
     exhaustive=False,
     rule="a case is a timestamp (first/last day of every month of 18 chosen years x 3 times x offsets "
          "-12:00..+14:00, +-23:59, half-hour offsets; uniformly random dates, nanoseconds and offsets) "
